@@ -45,6 +45,9 @@ func lookupIntrinsic(fn *ssa.Function) intrinsicFn {
 	if h := intrinsics[full]; h != nil {
 		return h
 	}
+	if strings.HasPrefix(full, "(*github.com/alecthomas/participle/v2.Parser[") && strings.Contains(full, "]).ParseString") {
+		return participleParseString(fn)
+	}
 	for _, p := range opaquePrefixes {
 		if strings.HasPrefix(full, p) {
 			return func(fr *frame, a []value) value { return opaqueResult(fn, full) }
